@@ -192,13 +192,13 @@ fn dim(t: Tier) -> std::ops::RangeInclusive<usize> {
     1..=t.pick(24, 40)
 }
 
-fn strat_square(t: Tier) -> BoxedStrategy<DecompCase> {
+pub fn strat_square(t: Tier) -> BoxedStrategy<DecompCase> {
     (dim(t), prop::bool::weighted(0.3))
         .prop_flat_map(|(n, f32)| (square_class(n, f32), rhs(n), scale_strategy(f32), any::<bool>()).prop_map(move |((class, a), b, s, ir)| finish(f32, class, s, a, b, ir, None)))
         .boxed()
 }
 
-fn strat_tall(t: Tier) -> BoxedStrategy<DecompCase> {
+pub fn strat_tall(t: Tier) -> BoxedStrategy<DecompCase> {
     (dim(t), dim(t), prop::bool::weighted(0.3))
         .prop_flat_map(|(x, y, f32)| {
             let (m, n) = (x.max(y), x.min(y));
@@ -207,13 +207,13 @@ fn strat_tall(t: Tier) -> BoxedStrategy<DecompCase> {
         .boxed()
 }
 
-fn strat_any_shape(t: Tier) -> BoxedStrategy<DecompCase> {
+pub fn strat_any_shape(t: Tier) -> BoxedStrategy<DecompCase> {
     (dim(t), dim(t), prop::bool::weighted(0.3))
         .prop_flat_map(|(m, n, f32)| (rect_class(m, n, f32), rhs(m), scale_strategy(f32), any::<bool>()).prop_map(move |((class, a), b, s, ir)| finish(f32, class, s, a, b, ir, None)))
         .boxed()
 }
 
-fn strat_spd(t: Tier) -> BoxedStrategy<DecompCase> {
+pub fn strat_spd(t: Tier) -> BoxedStrategy<DecompCase> {
     (dim(t), prop::bool::weighted(0.3))
         .prop_flat_map(|(n, f32)| {
             (spectrum(n, logcond(f32)).prop_flat_map(sym_from_eigs), rhs(n), scale_strategy(f32), any::<bool>()).prop_map(move |(a, b, s, ir)| finish(f32, "spd".into(), s, a, b, ir, None))
@@ -221,7 +221,7 @@ fn strat_spd(t: Tier) -> BoxedStrategy<DecompCase> {
         .boxed()
 }
 
-fn strat_indef(t: Tier) -> BoxedStrategy<DecompCase> {
+pub fn strat_indef(t: Tier) -> BoxedStrategy<DecompCase> {
     let random = (2..=*dim(t).end(), prop::bool::weighted(0.3)).prop_flat_map(|(n, f32)| {
         (spectrum(n, 2.0), vec(any::<bool>(), n), 0usize..n, scale_strategy(f32))
             .prop_flat_map(move |(s, neg, forced, sc)| {
@@ -241,7 +241,7 @@ fn strat_indef(t: Tier) -> BoxedStrategy<DecompCase> {
     prop_oneof![3 => random, 1 => integer].boxed()
 }
 
-fn strat_rankdef(t: Tier) -> BoxedStrategy<DecompCase> {
+pub fn strat_rankdef(t: Tier) -> BoxedStrategy<DecompCase> {
     (2..=*dim(t).end(), 2..=*dim(t).end(), prop::bool::weighted(0.2))
         .prop_flat_map(|(x, y, f32)| {
             let (m, n) = (x.max(y), x.min(y));
@@ -261,7 +261,7 @@ fn strat_rankdef(t: Tier) -> BoxedStrategy<DecompCase> {
         .boxed()
 }
 
-fn prep(case: &DecompCase) -> (Mat, Mat, f64) {
+pub fn prep(case: &DecompCase) -> (Mat, Mat, f64) {
     if case.f32 {
         (to_f32_grid(&case.a), to_f32_grid(&case.b), f32::EPSILON as f64)
     } else {
@@ -290,15 +290,15 @@ fn upper_exact(u: &Mat) -> bool {
 
 macro_rules! dispatch {
     ($case:expr, $f:ident, $($arg:expr),*) => {
-        if $case.f32 { $f::<f32>($($arg),*) } else { $f::<f64>($($arg),*) }
+        if $case.f32 { $f::<f32, DenseB>($($arg),*) } else { $f::<f64, DenseB>($($arg),*) }
     };
 }
 
 // ------------------------------------------------------------------ LU
 
-fn lu_run<T: RealNumber>(a: &Mat, b: &Mat, eps: f64, ctx: &mut Ctx) -> Result<(), Fail> {
+pub fn lu_run<T: RealNumber, B: Build<T>>(a: &Mat, b: &Mat, eps: f64, ctx: &mut Ctx) -> Result<(), Fail> {
     let n = a.r;
-    let ma = <DenseB as Build<T>>::build(a);
+    let ma = <B as Build<T>>::build(a);
     let lu = match no_panic("lu", || ma.lu())? {
         Ok(x) => x,
         Err(e) => return fail("lu/err", format!("lu() failed on a non-singular matrix: {}", e)),
@@ -318,8 +318,8 @@ fn lu_run<T: RealNumber>(a: &Mat, b: &Mat, eps: f64, ctx: &mut Ctx) -> Result<()
     };
     ctx.bound("lu/inverse", a.mul(&inv).sub(&Mat::eye(n)).fro(), C * eps * n as f64 * (an * inv.fro() + (n as f64).sqrt()))?;
     // solve
-    let mb = <DenseB as Build<T>>::build(b);
-    let x = match no_panic("lu_solve_mut", || <DenseB as Build<T>>::build(a).lu_solve_mut(mb))? {
+    let mb = <B as Build<T>>::build(b);
+    let x = match no_panic("lu_solve_mut", || <B as Build<T>>::build(a).lu_solve_mut(mb))? {
         Ok(x) => to_mat(&x),
         Err(e) => return fail("lu/err", format!("lu_solve_mut failed: {}", e)),
     };
@@ -335,9 +335,9 @@ fn check_lu(case: &DecompCase, ctx: &mut Ctx) -> Result<(), Fail> {
 
 // ------------------------------------------------------------------ QR
 
-fn qr_run<T: RealNumber>(a: &Mat, b: &Mat, eps: f64, ctx: &mut Ctx) -> Result<(), Fail> {
+pub fn qr_run<T: RealNumber, B: Build<T>>(a: &Mat, b: &Mat, eps: f64, ctx: &mut Ctx) -> Result<(), Fail> {
     let (m, n) = (a.r, a.c);
-    let ma = <DenseB as Build<T>>::build(a);
+    let ma = <B as Build<T>>::build(a);
     let qr = match no_panic("qr", || ma.qr())? {
         Ok(x) => x,
         Err(e) => return fail("qr/err", format!("qr() failed: {}", e)),
@@ -349,8 +349,8 @@ fn qr_run<T: RealNumber>(a: &Mat, b: &Mat, eps: f64, ctx: &mut Ctx) -> Result<()
     let dimf = m as f64;
     ctx.bound("qr/A-QR", a.sub(&q.mul(&r)).fro(), C * eps * dimf * an)?;
     ctx.bound("qr/QtQ-I", orth_defect(&q, n), C * eps * dimf)?;
-    let mb = <DenseB as Build<T>>::build(b);
-    let xs = match no_panic("qr_solve_mut", || <DenseB as Build<T>>::build(a).qr_solve_mut(mb))? {
+    let mb = <B as Build<T>>::build(b);
+    let xs = match no_panic("qr_solve_mut", || <B as Build<T>>::build(a).qr_solve_mut(mb))? {
         Ok(x) => to_mat(&x),
         Err(e) => return fail("qr/err", format!("qr_solve_mut failed: {}", e)),
     };
@@ -372,9 +372,9 @@ fn check_qr(case: &DecompCase, ctx: &mut Ctx) -> Result<(), Fail> {
 
 // ------------------------------------------------------------------ Cholesky
 
-fn chol_run<T: RealNumber>(a: &Mat, b: &Mat, eps: f64, ctx: &mut Ctx) -> Result<(), Fail> {
+pub fn chol_run<T: RealNumber, B: Build<T>>(a: &Mat, b: &Mat, eps: f64, ctx: &mut Ctx) -> Result<(), Fail> {
     let n = a.r;
-    let ma = <DenseB as Build<T>>::build(a);
+    let ma = <B as Build<T>>::build(a);
     let ch = match no_panic("cholesky", || ma.cholesky())? {
         Ok(x) => x,
         Err(e) => return fail("cholesky/err", format!("cholesky() rejected a positive-definite matrix: {}", e)),
@@ -384,8 +384,8 @@ fn chol_run<T: RealNumber>(a: &Mat, b: &Mat, eps: f64, ctx: &mut Ctx) -> Result<
     ensure!(u == l.t(), "cholesky/structure", "U is not the transpose of L");
     let an = a.fro();
     ctx.bound("cholesky/A-LLt", a.sub(&l.mul(&l.t())).fro(), C * eps * n as f64 * an)?;
-    let mb = <DenseB as Build<T>>::build(b);
-    let x = match no_panic("cholesky_solve_mut", || <DenseB as Build<T>>::build(a).cholesky_solve_mut(mb))? {
+    let mb = <B as Build<T>>::build(b);
+    let x = match no_panic("cholesky_solve_mut", || <B as Build<T>>::build(a).cholesky_solve_mut(mb))? {
         Ok(x) => to_mat(&x),
         Err(e) => return fail("cholesky/err", format!("cholesky_solve_mut failed: {}", e)),
     };
@@ -398,8 +398,8 @@ fn check_chol(case: &DecompCase, ctx: &mut Ctx) -> Result<(), Fail> {
     dispatch!(case, chol_run, &a, &b, eps, ctx)
 }
 
-fn indef_run<T: RealNumber>(a: &Mat) -> Result<(), Fail> {
-    let ma = <DenseB as Build<T>>::build(a);
+pub fn indef_run<T: RealNumber, B: Build<T>>(a: &Mat) -> Result<(), Fail> {
+    let ma = <B as Build<T>>::build(a);
     match no_panic("cholesky-indefinite", || ma.cholesky().map(|c| to_mat(&c.L())))? {
         Err(_) => Ok(()),
         Ok(l) => fail(
@@ -417,11 +417,11 @@ fn check_indef(case: &DecompCase, ctx: &mut Ctx) -> Result<(), Fail> {
 
 // ------------------------------------------------------------------ SVD
 
-fn svd_run<T: RealNumber>(a: &Mat, b: &Mat, null: &Option<Mat>, eps: f64, ctx: &mut Ctx) -> Result<(), Fail> {
+pub fn svd_run<T: RealNumber, B: Build<T>>(a: &Mat, b: &Mat, null: &Option<Mat>, eps: f64, ctx: &mut Ctx) -> Result<(), Fail> {
     let (m, n) = (a.r, a.c);
     let k = m.min(n);
     let dimf = m.max(n) as f64;
-    let ma = <DenseB as Build<T>>::build(a);
+    let ma = <B as Build<T>>::build(a);
     let svd = match no_panic("svd", || ma.svd())? {
         Ok(x) => x,
         Err(e) => return fail("svd/err", format!("svd() failed: {}", e)),
@@ -446,7 +446,7 @@ fn svd_run<T: RealNumber>(a: &Mat, b: &Mat, null: &Option<Mat>, eps: f64, ctx: &
     if m < n {
         return Ok(()); // solve for wide systems is outside the API's reach (see assumptions)
     }
-    let mb = <DenseB as Build<T>>::build(b);
+    let mb = <B as Build<T>>::build(b);
     let xs = match no_panic("svd_solve", || ma.svd_solve(mb))? {
         Ok(x) => to_mat(&x),
         Err(e) => return fail("svd/err", format!("svd_solve failed: {}", e)),
@@ -459,7 +459,7 @@ fn svd_run<T: RealNumber>(a: &Mat, b: &Mat, null: &Option<Mat>, eps: f64, ctx: &
         ctx.bound("svd/lstsq-normal-eq", a.t().mul(&res).fro(), C * eps * dimf * an * (an * x.fro() + b.fro()))?;
     }
     // the in-place variant agrees
-    let xs2 = match no_panic("svd_solve_mut", || <DenseB as Build<T>>::build(a).svd_solve_mut(<DenseB as Build<T>>::build(b)))? {
+    let xs2 = match no_panic("svd_solve_mut", || <B as Build<T>>::build(a).svd_solve_mut(<B as Build<T>>::build(b)))? {
         Ok(x) => to_mat(&x),
         Err(e) => return fail("svd/err", format!("svd_solve_mut failed: {}", e)),
     };
